@@ -113,6 +113,7 @@ class Interp:
         self.symbolic_tables = None     # id(list) -> name: lookups with a bit-field index stay symbolic
         self.inverse_tables = {}        # name of table A -> name of table B with A[B[x]] = x
         self.oob = []                   # (index, size) of reads of constant tables with a concrete index outside the table
+        self.thrown = []                # (where, path) of throw expressions reached
         self.diverged = []              # (loop, path): a loop head state that recurs with no decision left open
         self.uninit_reads = []          # (location, where): scalar reads of storage that was allocated and never written
         self.oob_may = []               # (table, index value, (lo, hi), size, where): index range of a constant-table read leaves the table
@@ -561,6 +562,12 @@ class Interp:
         if dk in ('Function', 'CXXMethod'):
             return [(st, ('fn', n['d']))]
         return [(s, P(*l) if l else ('ptop', 'lv', False)) for s, l in self.lv(n, st, fr)]
+
+    def ev_CXXThrowExpr(self, n, st, fr):
+        # the path ends here (handlers of an enclosing try are entered from the state at the try: ex_CXXTryStmt)
+        self.emit('throw', st, node=n)
+        self.thrown.append((nloc(n), tuple(str(x) for x in st.trace[-4:])))
+        return []
 
     def ev_LambdaExpr(self, n, st, fr):
         return [(st, ('opaque', 'lambda', n.get('op')))]
@@ -1615,10 +1622,21 @@ class Interp:
         t = self.T(tkey)
         rec = t.get('rec') if t else None
         mdl = self.models.get('~' + (rec or ''))
+        l = fr.vars.get(declid)
         if mdl is not None:
-            l = fr.vars.get(declid)
             if l is not None:
                 mdl(self, st, fr, node, P(*l), [], [])
+            return
+        # a class of the repository with a destructor of its own (scope guards, RAII owners): run it on the path that leaves
+        # the scope.  A destructor that forks is not followed (none does here): the state is kept as it is
+        dt = self._dtor_of(rec)
+        if dt is not None and l is not None and fr.depth < self.inline_depth:
+            r = self.inline(dt, st.copy(), fr, node, P(*l), [], [])
+            if len(r) == 1:
+                s2 = r[0][0]
+                st.mem, st.comps, st.sym, st.abs, st.trace = s2.mem, s2.comps, s2.sym, s2.abs, s2.trace
+            elif len(r) > 1:
+                self.unknown(node, 'destructor of %s forks at scope exit' % rec)
 
     def ex_DeclStmt(self, n, states, fr):
         cur = list(states)
@@ -1638,7 +1656,7 @@ class Interp:
                     continue
             if t and t.get('k') == 'ref':
                 self._decl_is_ref[d['id']] = True
-            if t and t.get('k') == 'rec' and ('~' + t.get('rec', '')) in self.models and fr.scopes:
+            if t and t.get('k') == 'rec' and fr.scopes and (('~' + t.get('rec', '')) in self.models or self._dtor_of(t.get('rec')) is not None):
                 fr.scopes[-1].append((d['id'], d['t'], n))
             init = d.get('init')
             nxt = []
